@@ -14,6 +14,11 @@ CHECKS = {
    technique="exhaustive enumeration of all 2^32 random words per bound on the real code (scripted crypto/rand.Reader), histogram equality",
    text="For each listed bound n, every one of the 2^32 possible first words (and continuations after rejected words) is run through the real randomUint32n; the per-outcome histogram must be exactly flat, fewer than half the words rejected, rejected words redrawn. This is a complete enumeration of the draw's input space for those n, which is the only way to see a 1-in-2^32 bias.",
    note="Bounds outside the swept list get only the boundary-word layer (necessary conditions). Trusted: go1.23.5 crypto/rand.Read = io.ReadFull(Reader, b); the histogram code in /verif/harness/checks/c01.go."),
+ "C02": dict(
+   engine="E1-cells", category="model_checking", ref="§3 C02, §2.2",
+   technique="stateless DFS over every outcome combination of every bounded draw of the real Generate (complete cell), exact rational output distribution compared with an independent model",
+   text="Every combination of draw outcomes is executed on the real code for each recipe of a ~68k-recipe configuration set, 1-3 candidates deep; the exact probability of every returned string is computed as a rational and must be equal over exactly the model's valid strings. Single-word lift/reject deviations show that only the accepted outcome of a draw matters.",
+   note="Relies on C01 for per-draw uniformity; cells are bounded (lengths 1-3 for custom alphabets, class-sized alphabets up to 10^4 leaves); retry depth cut at 1-3 candidates with the cut mass accounted."),
 }
 
 PENDING_REASON = "check not built yet in this session (planned in DESIGN.md §3; will be claimed when its checker exists)"
@@ -48,6 +53,7 @@ def main():
             add_only=True),
         engines=[
             dict(name="E1-sweep", path="/verif/harness/checks/c01.go", serves_properties=["C01"], kind_free_text="full 2^32 word sweep over a scripted crypto/rand.Reader, shared-memory histogram"),
+            dict(name="E1-cells", path="/verif/harness/checks/cells.go", serves_properties=["C02"], kind_free_text="stateless DFS over announced draw outcomes (tape explorer) with exact rational leaf masses"),
         ],
         checks=checks,
         notes="All checks: ./run <ID> <tier> rebuilds /verif/bin/check from /repo's working tree with -tags verif, then shards over 16 worker processes. See DESIGN.md.",
